@@ -129,6 +129,9 @@ impl<F: Read + Write + Seek> Replayer<F> {
                                 _ => format!("seek {}", s.seek(*from)?),
                             }
                         }
+                        // (4 GiB ... 32 TiB is refused by a version 3 file and would be
+                        // carried out by a version 4 file: not replayed)
+                        Step::HSetLen { n, .. } if *n >= engine::V3_UNREPRESENTABLE_LEN && *n < engine::UNREPRESENTABLE_LEN => "set_len (not replayed)".into(),
                         Step::HSetLen { n, .. } => {
                             s.set_len(*n)?;
                             "set_len".into()
